@@ -302,7 +302,8 @@ class KeyMelodyEncoderDecoder(encoder_decoder.EventSequenceEncoderDecoder):
     Returns:
       A label, an integer.
     """
-    if (position < self._lookback_distances[-1] and
+    if (self._lookback_distances and
+        position < self._lookback_distances[-1] and
         events[position] == MELODY_NO_EVENT):
       return self._note_range + len(self._lookback_distances) + 1
 
